@@ -126,6 +126,117 @@ def layout_form(common, rchain, tchain, policy, target_first=True):
     }
 
 
+NAME_POOL = [
+    "a", "b", "q1", "q2", "age", "r", "r2", "ra", "r2a", "rab", "abcde_r2", "fghij_ra", "g", "g1", "grp", "rep", "rep1",
+    "t", "t1", "tt", "x", "xy", "xyz", "n0", "w", "v", "kid", "kids", "hh", "house", "z9", "y_", "lbl", "name_", "a_b",
+    "a-b", "a.b", "S", "Sa", "q", "qq", "r_cnt", "k", "k2", "m", "mm", "node", "item", "label_",
+]
+
+
+def random_form(rng, max_depth, nmax):
+    """random tree of groups/repeats/questions with unique names; returns rows, element list"""
+    names = rng.sample(NAME_POOL, len(NAME_POOL))
+    rows, els = [], []  # els: (name, kind, row)
+
+    def fill(depth, budget):
+        n = rng.randint(1, 4)
+        for _ in range(n):
+            if not names or budget[0] <= 0:
+                return
+            budget[0] -= 1
+            nm = names.pop()
+            x = rng.random()
+            if depth < max_depth and x < 0.45:
+                kind = "repeat" if rng.random() < 0.6 else "group"
+                row = {"type": f"begin {kind}", "name": nm, "label": nm.upper()}
+                rows.append(row)
+                els.append((nm, kind, row))
+                fill(depth + 1, budget)
+                # a container needs at least one child
+                if rows[-1] is row and names:
+                    q = names.pop()
+                    r2 = {"type": "text", "name": q, "label": q.upper()}
+                    rows.append(r2)
+                    els.append((q, "q", r2))
+                rows.append({"type": f"end {kind}"})
+            else:
+                typ = rng.choice(["text", "integer", "calculate", "select_one l", "text", "integer"])
+                row = {"type": typ, "name": nm}
+                if typ != "calculate":
+                    row["label"] = nm.upper()
+                else:
+                    row["calculation"] = "1"
+                rows.append(row)
+                els.append((nm, "q", row))
+
+    fill(1, [nmax])
+    return rows, els
+
+
+def random_expr(rng, els, text=False):
+    qs = [e[0] for e in els if e[1] == "q"] or [els[0][0]]
+    reps = [e[0] for e in els if e[1] == "repeat"]
+    anyn = [e[0] for e in els]
+
+    def atom():
+        x = rng.random()
+        if x < 0.45:
+            return "${%s}" % rng.choice(anyn)
+        if x < 0.55:
+            return "${last-saved#%s}" % rng.choice(qs)
+        if x < 0.75 and reps:
+            idx = rng.choice(["1", "${%s}" % rng.choice(qs), "2"])
+            return "indexed-repeat(${%s}, ${%s}, %s)" % (rng.choice(qs), rng.choice(reps), idx)
+        if x < 0.9:
+            return "instance('l')/root/item[name = ${%s}]/label" % rng.choice(anyn)
+        return rng.choice(["1", "'x'", "."])
+
+    n = rng.randint(1, 4)
+    atoms = [atom() for _ in range(n)]
+    if not any("${" in a for a in atoms):
+        atoms.append("${%s}" % rng.choice(anyn))
+    if text:
+        return "T " + " ; ".join(atoms) + " ."
+    return rng.choice([" + ", " and ", " = "]).join(atoms) if rng.random() < 0.8 else "concat(" + ", ".join(atoms) + ")"
+
+
+def decorate(rng, rows, els):
+    """put random reference-bearing cells on random rows"""
+    k = rng.randint(1, max(1, len(els) // 2))
+    for nm, kind, row in rng.sample(els, min(k, len(els))):
+        if kind == "q":
+            cols = ["relevant", "constraint", "required", "read_only", "hint", "label", "default", "constraint_message"]
+            if row["type"] == "calculate":
+                cols = ["calculation", "relevant"]
+            elif row["type"].startswith("select_one"):
+                cols.append("choice_filter")
+            else:
+                cols.append("calculation")
+        elif kind == "group":
+            cols = ["relevant", "label"]
+        else:
+            cols = ["relevant", "label", "repeat_count"]
+        for col in rng.sample(cols, rng.randint(1, min(3, len(cols)))):
+            row[col] = random_expr(rng, els, text=col in ("label", "hint", "constraint_message"))
+    return rows
+
+
+def code_ia_flag(src, start, end, name):
+    """The indexed-repeat verdict of `_is_return_relative_path` for an expression with exactly ONE
+    `indexed-repeat(` call without nested parentheses (the modelled fragment): True = absolute-by-design."""
+    m = re.search(r"indexed-repeat\([^)]+\)", src)
+    if not m:
+        return False
+    if end > m.end() or end < m.start() or start > m.end():
+        return False
+    args = re.search(r"\b[^()]+\((.*)\)$", m.group()).group(1).split(",")
+    idx = None
+    for i, a in enumerate(args):
+        if "${%s}" % name in a.strip():
+            idx = i
+    return not (idx is not None and idx not in (0, 1, 3, 5))
+
+
 # --------------------------------------------------------------------------- oracle
 
 
@@ -194,7 +305,7 @@ def probes(form, xi: rc.XIndex):
             elif base == "repeat_count":
                 rep = xi.repeats.get(P)
                 cnt = rep.get(rc.JR + "count") if rep is not None else None
-                if rc.REF_RE.fullmatch(src.strip()):
+                if re.fullmatch(r"\$\{[^{}]*\}", src.strip()):
                     out.append((e, "repeat_count", src, [(cnt, 0)] if cnt is not None else [], P))
                 else:
                     # generated <name>_count calculate, a sibling of the repeat; jr:count points at it
@@ -366,7 +477,8 @@ def corr_whole(ctx, form, holes, survey):
             continue
         ctx.count("fragment:modelled")
         q = {"ctx": h["trigger"] if h["cell"] == "trigger-value" else h["ctx"], "name": h["info"]["name"],
-             "ls": h["info"]["last_saved"], "ia": h["flags"]["ir_arg"] in (0, 1, 3, 5),
+             "ls": h["info"]["last_saved"],
+             "ia": code_ia_flag(h["src"], h["info"]["start"], h["info"]["end"], h["info"]["name"]),
              "ip": h["flags"]["in_pred"] and h["cell"] != "choice_filter", "uc": h["cell"] == "choice_filter", "rp": False}
         qs.append(q)
         hs.append(h)
@@ -458,6 +570,61 @@ def form_case(ctx, form, expect=None, tag="layout", direct=0):
     ctx.record(case, nontrivial)
 
 
+def rows_tree(form):
+    """the model's `El` tree straight from the rows (used where the implementation gives no Survey)"""
+    root = {"k": "group", "n": rc.root_name(form), "kids": []}
+    stack = [root]
+    for row in form["survey"]:
+        t = (row.get("type") or "").strip()
+        m = re.match(r"^(begin|end)[ _](group|repeat)$", t)
+        if m and m.group(1) == "end":
+            stack.pop()
+            continue
+        node = {"k": {"group": "group", "repeat": "rep"}[m.group(2)] if m else "q", "n": row["name"], "kids": []}
+        stack[-1]["kids"].append(node)
+        if m:
+            stack.append(node)
+    return root
+
+
+def bad_name_case(ctx, form, els):
+    """mutate one reference into an unknown name, or duplicate a referenced name elsewhere in the tree"""
+    import copy
+
+    rng = ctx.rng
+    form = copy.deepcopy(form)
+    cells = [(r, c) for r in form["survey"] for c, v in r.items() if isinstance(v, str) and "${" in v and c not in ("type", "name")]
+    if not cells:
+        return
+    row, col = rng.choice(cells)
+    refs = list(rc.REF_RE.finditer(row[col]))
+    m = rng.choice(refs)
+    if rng.random() < 0.5:
+        why, nm = "unknown", "zz_nope"
+        row[col] = row[col][: m.start(2)] + nm + row[col][m.end(2):]
+    else:
+        why, nm = "ambiguous", m.group(2)
+        # a second element of that name inside a fresh group at the end (siblings stay unique)
+        form["survey"] += [{"type": "begin group", "name": "zz_dupbox", "label": "D"}, {"type": "text", "name": nm, "label": "D"},
+                           {"type": "end group"}]
+    expect = {"error": nm, "why": why}
+    r = impl.run(form)
+    ctx.count(f"badname:{why}:impl:{r['class']}")
+    case = {"form": form}
+    if r["ok"]:
+        _fail(ctx, Failure("bad-name-accepted", f"reference to {why} name {nm!r} accepted", case, extra={"expect": expect}))
+    elif r["class"] != "pyxform":
+        _fail(ctx, Failure("bad-name-crash", f"reference to {why} name {nm!r}: {r['msg'][:200]}", case, extra={"expect": expect}))
+    elif f"'{nm}'" not in r["msg"] or ("no survey element" if why == "unknown" else "multiple survey elements") not in r["msg"]:
+        _fail(ctx, Failure("bad-name-not-named", f"error does not name {why} {nm!r}: {r['msg'][:200]}", case, extra={"expect": expect}))
+    # the model on the same tree
+    ref_el = [e for e in rc.elements(form) if e.row is row]
+    mres = ctx.driver.call("refs.model", tree=rows_tree(form), queries=[{"ctx": ref_el[0].xpath() if ref_el else None, "name": nm}])[0]
+    if mres["out"] != why:
+        ctx.mismatch("unknown/ambiguous name", {"form": form, "name": nm}, why if not r["ok"] else "ok", mres)
+    ctx.record(case, True)
+
+
 def explore(ctx, factor, bs):
     depth = ctx.pick(3, 4)
     n = 0
@@ -470,12 +637,24 @@ def explore(ctx, factor, bs):
             ctx.count(f"policy:{policy}")
             ctx.count(f"depth:{len(common) + max(len(rchain), len(tchain))}")
             form_case(ctx, form, direct=ctx.pick(40, 120) * factor)
+    # random deeper trees, mixed expressions
+    nrand = ctx.pick(350, 6000) * factor
+    for i in range(nrand):
+        rows, els = random_form(ctx.rng, ctx.rng.choice([3, 5, ctx.pick(6, 8)]), ctx.rng.choice([6, 12, 25]))
+        if not els:
+            continue
+        decorate(ctx.rng, rows, els)
+        form = {"survey": rows, "choices": [{"list_name": "l", "name": "a", "label": "A"}, {"list_name": "l", "name": "b", "label": "B"}]}
+        form_case(ctx, form, tag="random", direct=10 if i % 5 == 0 else 0)
+        # a name that does not exist / exists twice
+        if i % 3 == 0:
+            bad_name_case(ctx, form, els)
     ctx.notes["exhaustive"] = f"all layouts (common, referrer chain, target chain) of groups/repeats with depth <= {depth}: {n} forms"
 
 
 def replay(ctx, payload, bs):
     before = len(ctx.failures), len(ctx.mismatches)
-    form_case(ctx, payload["case"]["form"], payload.get("extra", {}).get("expect"))
+    form_case(ctx, payload["case"]["form"], payload.get("extra", {}).get("expect"), direct=40)
     return (len(ctx.failures), len(ctx.mismatches)) == before
 
 
@@ -494,7 +673,18 @@ def m_trigger_value_context(f: Failure) -> bool:
     return False
 
 
-MATCHERS = {"F39-trigger-value-context": m_trigger_value_context}
+def m_second_indexed_repeat(f: Failure) -> bool:
+    """`_is_return_relative_path` walks the indexed-repeat() matches with a for loop *and* `next()` on the same
+    iterator, so with two or more indexed-repeat( calls in one expression every reference that ends after the first
+    call is judged against the wrong call (or none): an ordinary reference after them comes out absolute although enclosed"""
+    x = f.extra
+    if f.kind != "absolute-when-enclosed" or x.get("src") is None:
+        return False
+    calls = [m for m in re.finditer(r"indexed-repeat\([^)]+\)", x["src"])]
+    return len(calls) >= 2 and x.get("start", -1) > calls[0].end() - 1 and not x.get("last_saved")
+
+
+MATCHERS = {"F39-trigger-value-context": m_trigger_value_context, "F40-refs-after-two-indexed-repeat": m_second_indexed_repeat}
 
 
 def main(argv):
